@@ -72,7 +72,7 @@ def sizes_for(mtu):
     return sorted(s)
 
 
-def gen_size_case(real, rng, cid, mtu, lengths, loss_plan, later=(), lossy=None, retry=-1):
+def gen_size_case(real, rng, cid, mtu, lengths, loss_plan, later=(), lossy=None, retry=-1, cb=True):
     """guaranteed sends of the given lengths from a to b; loss_plan(k, direction) -> lost? for emission k; then healed"""
     lines = ["case %s" % cid]
     glog = []
@@ -102,7 +102,7 @@ def gen_size_case(real, rng, cid, mtu, lengths, loss_plan, later=(), lossy=None,
         t0 = t
         for i, n in enumerate(lengths):
             seed += 1
-            emit("send a len=%d seed=%d retry=%d cb=%d" % (n, seed, retry, i + 1))
+            emit("send a len=%d seed=%d retry=%d cb=%s" % (n, seed, retry, (i + 1) if cb else "-"))
         k = {"a": 0, "b": 0}
         steps = 0
         lossy_until = t + (rng.choice([600, 1500, 3000]) if lossy is None else lossy)
@@ -212,12 +212,37 @@ def monitor(case, log, ctx):
     for rec in log:
         if rec["op"] == "dump":
             final[rec["e"]] = rec["dump"]
+    # which fragment indices of which fragmented send the peer has accepted in some datagram (the recorded defect needs every fragment to
+    # have reached the peer at some time - in contexts that expired in between; a fragment that never arrived and is never sent again
+    # is a different failure and is reported as one)
+    frag_of = {}           # (sender, emission index) -> [(frag id, index, count)]
+    first_fid = {}         # (sender, message seq) -> (frag id, count)
+    for rec in log:
+        if rec["op"] == "build" and rec.get("pkt") and rec["pkt"].get("frags"):
+            lst = frag_of.setdefault((rec["e"], rec["pkt"]["k"]), [])
+            for ms, (fid, idx, cnt) in rec["pkt"]["frags"].items():
+                lst.append((fid, idx, cnt))
+                first_fid.setdefault((rec["e"], int(ms)), (fid, cnt))
+    got_idx = {}           # (sender, frag id) -> set of indices accepted by the peer
+    for rec in log:
+        if rec["op"] == "recv" and rec.get("ret") == "T" and rec.get("spec", "").startswith("@") and not rec.get("muts"):
+            src, kk = rec["spec"][1:].split(":")
+            for fid, idx, cnt in frag_of.get((src, int(kk)), []):
+                got_idx.setdefault((src, fid), set()).add(idx)
+
+    def all_fragments_arrived(e, snd):
+        ms = (snd["mseq_before"] % 65535) + 1
+        fc = first_fid.get((e, ms))
+        if fc is None:
+            return False
+        fid, cnt = fc
+        return got_idx.get((e, fid), set()) >= set(range(1, cnt + 1))
     for (e, dg), snd in sends.items():
         peer = "b" if e == "a" else "a"
         d = final.get(e, "")
         quiet = "pa=[]" in d and "out=[]" in d and "prm=[]" in d
         if dg not in delivered[peer] and snd["len"] >= 1:
-            if snd["frag"] and quiet:
+            if snd["frag"] and quiet and all_fragments_arrived(e, snd):
                 ctx.failure(KNOWN_EXPIRY, "guaranteed %d-byte (fragmented) message from %s never delivered although the sender holds nothing "
                             "pending: the receiver purged its incomplete reassembly context" % (snd["len"], e), {"case": case, "at": len(case) - 2})
             elif quiet or case[0].split()[1].startswith(("z", "k")):
@@ -300,7 +325,9 @@ def run(ctx):
             # blackout: every datagram (of the sender / of both sides) is lost for longer than the message time-out
             plan = (lambda k, e, trel, msgs, _l=lost, _k=kind, _d=dark: (e == "b") if _k == "acks" else
                     (e == "a" and trel < _d) if _k == "blackout" else (trel < _d) if _k == "blackout2" else (e == "a" and k in _l))
-            cases.append(gen_size_case(real, rng, "z%d_%d" % (mtu, j), mtu, lengths, plan, lossy=3000 if kind.startswith("blackout") else None))
+            # every third case sends without a callback (the default of send_guaranteed)
+            cases.append(gen_size_case(real, rng, "z%d_%d" % (mtu, j), mtu, lengths, plan, lossy=3000 if kind.startswith("blackout") else None,
+                                       cb=(j % 3 != 2)))
     # overtaken by more newer messages than either receive window is wide
     for j, n_other in enumerate([40, 250, 257, 300, 520][:ctx.scale(5, 5)]):
         for fault in ("loss", "reorder"):
